@@ -6,7 +6,7 @@ from ..boot import priv
 
 PROP = 'C12'
 LEVEL = 'exploration'
-OWN = ('raise_wedges_node', 'raise_callback_count', 'raise_replicas_differ', 'raise_reexecuted')
+OWN = ('raise_wedges_node', 'raise_callback_count', 'raise_replicas_differ', 'raise_reexecuted', 'raise_wrong_result')
 INVARIANTS = OWN
 for _i in OWN:
     INV_PROP[_i] = PROP
@@ -44,6 +44,11 @@ class C12Oracle(RaftOracle):
             self.execs[k] = self.execs.get(k, 0) + 1
             if self.execs[k] == 2 and tag in self.boom_tags:
                 self.flag('raise_reexecuted', 'host %d executed the raising command %d (position %d) again: the node does not move past it' % (idx, tag, pos))
+        # what the submitter is told about a raising command that was committed: SUCCESS with the exception the method
+        # raised (the library hands the exception to the caller as the result) - never another command's result
+        for tag, res, err, idx, _pos in w.step_callbacks:
+            if tag in self.boom_tags and err == 0 and not isinstance(res, BaseException):
+                self.flag('raise_wrong_result', 'the callback of the raising command %d got SUCCESS with result %r, which is not the exception the method raised' % (tag, res))
         RaftOracle.after_event(self, ev, out, touched)
 
 
@@ -75,7 +80,12 @@ class C12Spec(c01.C01Spec):
         s['w_part'] = 0.0
         s['w_hold'] = rng.choice([0.0, 0.02])
         s['w_rst'] = rng.choice([0.0, 0.02])
-        if rng.random() < 0.4:
+        if rng.random() < 0.25:
+            # a calm run: no fault at all (callbacks of follower-submitted raising commands are owed too)
+            s['w_hold'] = s['w_rst'] = s['w_stall'] = 0.0
+            s['w_compact'] = 0.0
+            cfg['calm'] = True
+        if rng.random() < 0.4 and not cfg.get('calm'):
             conf['journal'] = True
             conf['dump'] = True
             conf['useFork'] = False
@@ -97,6 +107,7 @@ class C12Spec(c01.C01Spec):
                 apply([0.0, 'start', h.idx])
         period = 0.05
         B = c05.SPEC.bound(w.cfg)
+        nfaults_before_quiet = w.nfaults
         t0 = w.T
         top = max(orc.G) if orc.G else 1
         booms_committed = [t for t in orc.boom_tags if t in orc.Gtag]
@@ -138,11 +149,22 @@ class C12Spec(c01.C01Spec):
             else:
                 w.probe('final_convergence_failed_other_reason')
             return
+        # a run without any fault and with one leadership only: every committed raising command was submitted (directly or
+        # forwarded) under the leader that committed it, nothing was lost - its callback is owed exactly once, wherever
+        # it was submitted
+        calm = (nfaults_before_quiet == 0 and orc.leader_changes <= 1)
+        if calm:
+            w.probe('calm_run_callbacks_checked')
         for tag in orc.boom_tags:
             n = len(orc.cbs.get(tag, []))
             if tag not in orc.Gtag:
                 continue
             p = orc.Gtag[tag]
+            if calm and n != 1:
+                sub = orc.subs.get(tag)
+                orc.flag('raise_callback_count', 'no fault and one leadership in the whole run: the callback of the raising command %d (submitted on host %s, committed at %d) fired %d times' % (
+                    tag, sub[0] if sub else '?', p, n))
+                return
             if n > 1:
                 orc.flag('raise_callback_count', 'the callback of the raising command %d (committed at %d) fired %d times' % (tag, p, n))
                 return
